@@ -108,6 +108,8 @@ def toy_curve(curve, with_order=True):
 
 
 def mkpoint(c, P):
+    if isinstance(P, str):          # FRESH_INF (round 6, C02-x1: `is` instead of `==` in the infinity shortcuts)
+        return c.Point(None, None)
     return c.infinity() if P is None else c.Point(P[0], P[1])
 
 
@@ -130,8 +132,11 @@ def base_point(curve, seed):
     return list(pts[1 + seed_int(seed, "C02.base.%d.%d.%d" % (p, a, b), 0, n - 2)])
 
 
+FRESH_INF = "fresh-infinity"      # the point at infinity as a separately built, equal object (not the curve's cached one)
+
+
 def P_of(v):
-    return None if v is None else (int(v[0]), int(v[1]))
+    return None if v is None or v == FRESH_INF else (int(v[0]), int(v[1]))
 
 
 def relation(P, Q, p):
@@ -182,8 +187,8 @@ class ToyAdd(ToyBase):
         pts = ec.points(p, a, b)
         P0 = pts[unit["i"]]
         full = unit["impl"] == "curve"
-        Ps = [None] if P0 is None else (reps(P0, p) if full else [P0])
-        Qs = [None]
+        Ps = [None, FRESH_INF] if P0 is None else (reps(P0, p) if full else [P0])
+        Qs = [None, FRESH_INF]
         for Q0 in pts[1:]:
             Qs.extend(reps(Q0, p) if full else [Q0])
         for P in Ps:
@@ -205,8 +210,8 @@ class ToyAdd(ToyBase):
             ok, c = _try(toy_generator, case["curve"], case["G"])
         if not ok:
             return BAD("exception", "curve object", c, clause="construct")
-        ok, pp = _try(mkpoint, c, P)
-        ok2, qq = _try(mkpoint, c, Q)
+        ok, pp = _try(mkpoint, c, case["P"] if case["P"] == FRESH_INF else P)
+        ok2, qq = _try(mkpoint, c, case["Q"] if case["Q"] == FRESH_INF else Q)
         if not (ok and ok2):
             return BAD("exception", "point on the curve accepted", "%s / %s" % (pp, qq), clause="point-construct")
         checks = [("P+Q", lambda: pp + qq, exp_sum, "add"), ("Q+P", lambda: qq + pp, exp_sum, "add"), ("c.add", lambda: c.add(pp, qq), exp_sum, "add")]
